@@ -25,6 +25,19 @@ package trafficlogger
 // proxy attempt on that connection fails), exactly one offline notification follows, and GET /online
 // drops the connection (bounded waits: a stale or wrong listing is a violation).  At the end
 // GET /traffic must show exactly the bytes that went through, per user and direction.
+//
+// "pendauth" steps hold the auth request of raw HTTP/3 connections inside the authenticator (c15Auth
+// "hold:" credentials: a slow backend the harness releases) and meanwhile close the QUIC connection,
+// cancel the request, or do nothing; then the backend accepts or rejects.  Verdict: whatever the
+// server reports about such a connection between the backend's answer and the end of its handler is
+// nothing, or online, or online then offline, for its own user; rejected credentials are never
+// reported; the connections that are still there and authenticated are counted by GET /online.
+//
+// On every script, after every step, the pairing of the notifications is evaluated on the whole
+// record of the logger boundary (pairing()): per user no prefix has more offline than online
+// notifications, per connection (EventLogger Connect / Disconnect, by client address) they
+// alternate starting with Connect, and at the quiescent observation point #online - #offline is
+// the number of live authenticated connections of the user.
 
 import (
 	"bytes"
@@ -66,6 +79,28 @@ type c15Step struct {
 	Reqs  []string  `json:"reqs"`
 	Conc  bool      `json:"conc"`
 	Proto *c15Proto `json:"proto"`
+	// pendauth: raw HTTP/3 connections whose auth request is held inside the authenticator (a slow backend)
+	// while the harness lets the connection die / cancels the request / does nothing; the authenticator
+	// then answers in the order Order; SettleMs = how long the server is given to see a close
+	Conns    []c15Pend `json:"conns"`
+	Order    []int     `json:"order"`
+	SettleMs int       `json:"settle_ms"`
+}
+
+type c15Pend struct {
+	Slot   int    `json:"slot"`
+	ID     int    `json:"id"`
+	Decide string `json:"decide"` // ok | bad: what the authenticator answers when released
+	Fault  string `json:"fault"`  // close (CloseWithError) | cancel (the request is cancelled, the connection stays) | none
+	When   string `json:"when"`   // pending: the fault happens while the authenticator is deciding | decided: right after it answered
+}
+
+type c15PendObs struct {
+	Slot    int     `json:"slot"`
+	Entered bool    `json:"entered"` // the auth request reached the authenticator
+	Status  int     `json:"status"`  // fault none: the answer to the auth request; cancel: to a second one (rejected credentials)
+	Live    bool    `json:"live"`    // the connection is still there and the server treats it as authenticated
+	Notes   [][]int `json:"notes"`   // LogOnlineState calls between this connection's release and its resolution: [id, 0|1]
 }
 
 // the wire constants of the auth request (core/internal/protocol, not importable from here): read from
@@ -83,9 +118,35 @@ type c15Proto struct {
 // until k calls with the same token are inside Authenticate, or c15Rendezvous has passed - a slow
 // authenticator backend (HTTP / command), so that auth requests in flight on ONE connection overlap
 // if the server lets them.
+//
+// "hold:<token>:<ok|bad>:<id>" is a backend that answers when the harness says so: the call announces itself
+// (entered) and blocks until released (or c15HoldMax), then accepts as <id> or rejects.
 type c15Auth struct {
-	mu sync.Mutex
-	rv map[string]*c15Rv
+	mu    sync.Mutex
+	rv    map[string]*c15Rv
+	holds map[string]*c15Hold
+}
+
+type c15Hold struct {
+	entered chan struct{}
+	release chan struct{}
+	once    sync.Once
+}
+
+const c15HoldMax = 60 * time.Second
+
+func (a *c15Auth) hold(token string) *c15Hold {
+	a.mu.Lock()
+	defer a.mu.Unlock()
+	if a.holds == nil {
+		a.holds = map[string]*c15Hold{}
+	}
+	h := a.holds[token]
+	if h == nil {
+		h = &c15Hold{entered: make(chan struct{}), release: make(chan struct{})}
+		a.holds[token] = h
+	}
+	return h
 }
 
 type c15Rv struct {
@@ -98,6 +159,19 @@ const c15Rendezvous = 150 * time.Millisecond
 func (a *c15Auth) Authenticate(addr net.Addr, auth string, tx uint64) (bool, string) {
 	if strings.HasPrefix(auth, "ok:") {
 		return true, auth[3:]
+	}
+	if strings.HasPrefix(auth, "hold:") {
+		parts := strings.SplitN(auth, ":", 4)
+		if len(parts) != 4 {
+			return false, ""
+		}
+		h := a.hold(parts[1])
+		h.once.Do(func() { close(h.entered) })
+		select {
+		case <-h.release:
+		case <-time.After(c15HoldMax):
+		}
+		return parts[2] == "ok", parts[3]
 	}
 	if strings.HasPrefix(auth, "rv:") {
 		parts := strings.SplitN(auth, ":", 4)
@@ -157,6 +231,30 @@ func c15RawDial(srv net.Addr) (*c15Raw, error) {
 
 // one POST <host><path> auth request; returns the status code (0 = transport error)
 func (r *c15Raw) auth(p *c15Proto, auth string) int {
+	ctx, cancel := context.WithTimeout(context.Background(), 10*time.Second)
+	defer cancel()
+	return r.authCtx(ctx, p, auth)
+}
+
+// a request that is not an auth request (answered by the masquerade handler without touching the auth
+// state): when its answer is back, the server has processed everything this client sent before it
+func (r *c15Raw) ping(p *c15Proto) int {
+	req := &http.Request{
+		Method: http.MethodGet,
+		URL:    &url.URL{Scheme: "https", Host: p.Host, Path: "/"},
+		Header: make(http.Header),
+	}
+	ctx, cancel := context.WithTimeout(context.Background(), 10*time.Second)
+	defer cancel()
+	resp, err := r.cc.RoundTrip(req.WithContext(ctx))
+	if err != nil {
+		return 0
+	}
+	_ = resp.Body.Close()
+	return resp.StatusCode
+}
+
+func (r *c15Raw) authCtx(ctx context.Context, p *c15Proto, auth string) int {
 	req := &http.Request{
 		Method: http.MethodPost,
 		URL:    &url.URL{Scheme: "https", Host: p.Host, Path: p.Path},
@@ -165,8 +263,6 @@ func (r *c15Raw) auth(p *c15Proto, auth string) int {
 	req.Header.Set(p.HAuth, auth)
 	req.Header.Set(p.HCCRX, "0")
 	req.Header.Set(p.HPad, "verif-padding-verif-padding-verif-padding")
-	ctx, cancel := context.WithTimeout(context.Background(), 10*time.Second)
-	defer cancel()
 	resp, err := r.cc.RoundTrip(req.WithContext(ctx))
 	if err != nil {
 		return 0
@@ -265,6 +361,53 @@ func (t *c15Tap) refusedSince(mark, id int) int {
 	return n
 }
 
+// the EventLogger of the server: Connect / Disconnect carry the client's address, so the announcements can
+// be attributed to a connection (every client of the harness has its own UDP socket)
+type c15EvLog struct {
+	mu  sync.Mutex
+	evs []c15ConnEv
+}
+
+type c15ConnEv struct {
+	Addr string
+	ID   string
+	Up   bool
+}
+
+func (l *c15EvLog) Connect(addr net.Addr, id string, tx uint64) {
+	l.mu.Lock()
+	l.evs = append(l.evs, c15ConnEv{Addr: addr.String(), ID: id, Up: true})
+	l.mu.Unlock()
+}
+
+func (l *c15EvLog) Disconnect(addr net.Addr, id string, err error) {
+	l.mu.Lock()
+	l.evs = append(l.evs, c15ConnEv{Addr: addr.String(), ID: id})
+	l.mu.Unlock()
+}
+func (l *c15EvLog) TCPRequest(addr net.Addr, id, reqAddr string)                    {}
+func (l *c15EvLog) TCPError(addr net.Addr, id, reqAddr string, err error)           {}
+func (l *c15EvLog) UDPRequest(addr net.Addr, id string, sessionID uint32, r string) {}
+func (l *c15EvLog) UDPError(addr net.Addr, id string, sessionID uint32, err error)  {}
+
+// per connection (client address; an address can come back for a later connection once the earlier one is gone):
+// Connect and Disconnect alternate, starting with Connect
+func (l *c15EvLog) unpaired() string {
+	l.mu.Lock()
+	defer l.mu.Unlock()
+	connected := map[string]bool{}
+	for k, e := range l.evs {
+		switch {
+		case e.Up && connected[e.Addr]:
+			return fmt.Sprintf("connection %s of %q was announced (Connect) a second time (event #%d)", e.Addr, e.ID, k)
+		case !e.Up && !connected[e.Addr]:
+			return fmt.Sprintf("connection %s of %q was reported gone (Disconnect) without having been announced (event #%d)", e.Addr, e.ID, k)
+		}
+		connected[e.Addr] = e.Up
+	}
+	return ""
+}
+
 // ---------------------------------------------------------------- flows
 
 type c15Rx struct {
@@ -297,14 +440,15 @@ func (f *c15Flow) close() {
 }
 
 type c15E2EObs struct {
-	Step    int        `json:"step"`
-	Result  string     `json:"result"`  // ok | refused | rejected | skipped | error:<..>
-	Reports [][]uint64 `json:"reports"` // LogTraffic calls seen during the step: [id, tx, rx, accepted]
-	Ups     []int      `json:"ups"`     // LogOnlineState(id, true) calls seen during the step
-	Downs   []int      `json:"downs"`   // LogOnlineState(id, false) calls seen during the step
-	Alive   *bool      `json:"alive"`   // tcp / udp steps: did a proxy attempt on the connection succeed afterwards?
-	Online  [][]int64  `json:"online"`  // listing after the step reached (or failed to reach) the expected census
-	Auths   []int      `json:"auths"`   // rawauth: status of every auth request, in the order of Reqs
+	Step    int          `json:"step"`
+	Result  string       `json:"result"`  // ok | refused | rejected | skipped | error:<..>
+	Reports [][]uint64   `json:"reports"` // LogTraffic calls seen during the step: [id, tx, rx, accepted]
+	Ups     []int        `json:"ups"`     // LogOnlineState(id, true) calls seen during the step
+	Downs   []int        `json:"downs"`   // LogOnlineState(id, false) calls seen during the step
+	Alive   *bool        `json:"alive"`   // tcp / udp steps: did a proxy attempt on the connection succeed afterwards?
+	Online  [][]int64    `json:"online"`  // listing after the step reached (or failed to reach) the expected census
+	Auths   []int        `json:"auths"`   // rawauth: status of every auth request, in the order of Reqs
+	Pend    []c15PendObs `json:"pend"`    // pendauth: one per connection, in the order of Conns
 }
 
 const (
@@ -336,11 +480,14 @@ func c15E2E(c c15Case, steps []c15Step, res map[string]any) {
 		fail("setup: %v", err)
 		return
 	}
+	authn := &c15Auth{}
+	evlog := &c15EvLog{}
 	srv, err := server.NewServer(&server.Config{
 		TLSConfig:     server.TLSConfig{Certificates: []tls.Certificate{cert}},
 		Conn:          udpConn,
-		Authenticator: &c15Auth{},
+		Authenticator: authn,
 		TrafficLogger: tap,
+		EventLogger:   evlog,
 	})
 	if err != nil {
 		fail("setup: %v", err)
@@ -470,6 +617,55 @@ func c15E2E(c c15Case, steps []c15Step, res map[string]any) {
 			time.Sleep(5 * time.Millisecond)
 		}
 	}
+	// the pairing of the online / offline notifications, on the whole record of the logger boundary: per user no
+	// prefix has more offline than online notifications (an offline one always answers an earlier online one),
+	// at a quiescent point #online - #offline is the number of live authenticated connections, and per connection
+	// (EventLogger, by client address) nothing / Connect / Connect then Disconnect
+	pairing := func(si int, a string, quiescent bool) {
+		bal := make([]int64, n)
+		k := 0
+		for _, e := range tap.since(0) {
+			if e.Log {
+				continue
+			}
+			k++
+			if e.ID < 0 {
+				fail("step %d (%s): online notification #%d names a user nobody authenticated as", si, a, k)
+				return
+			}
+			if e.On {
+				bal[e.ID]++
+			} else if bal[e.ID]--; bal[e.ID] < 0 {
+				fail("step %d (%s): unpaired offline notification: LogOnlineState(id %d, false) is notification #%d at the logger boundary "+
+					"and no online notification of that user is outstanding (online-offline balance %d)", si, a, e.ID, k, bal[e.ID])
+				return
+			}
+		}
+		if msg := evlog.unpaired(); msg != "" {
+			fail("step %d (%s): unpaired online announcements: %s", si, a, msg)
+			return
+		}
+		for id := 0; quiescent && id < n; id++ {
+			if bal[id] != live[id] {
+				fail("step %d (%s): online-offline balance of the notifications for id %d is %d with %d live authenticated connection(s)", si, a, id, bal[id], live[id])
+				return
+			}
+		}
+	}
+	// the online / offline notifications recorded since mark, as [id, 0|1]
+	notesSince := func(mark int) [][]int {
+		out := [][]int{}
+		for _, e := range tap.since(mark) {
+			if !e.Log {
+				b := 0
+				if e.On {
+					b = 1
+				}
+				out = append(out, []int{e.ID, b})
+			}
+		}
+		return out
+	}
 	// one proxy attempt on the connection that moves no byte (so it makes no traffic report)
 	usable := func(cl client.Client) bool {
 		conn, err := cl.TCP(probe.Addr().String())
@@ -534,8 +730,190 @@ func c15E2E(c c15Case, steps []c15Step, res map[string]any) {
 		mark := tap.mark()
 		var alive *bool
 		var auths []int
+		var pobs []c15PendObs
 		wantDowns, wantUps := []int{}, []int{}
 		switch st.A {
+		case "pendauth":
+			// connections that are closed (or whose request is cancelled) while their auth is pending: the
+			// authenticator backend is slow, the client gives up, then the backend answers
+			if st.Proto == nil || len(st.Conns) == 0 {
+				result = "skipped"
+				break
+			}
+			type pendRun struct {
+				rc     *c15Raw
+				hold   *c15Hold
+				cancel context.CancelFunc
+				done   chan int
+				closed bool
+			}
+			wait := func(ch chan int) int {
+				select {
+				case v := <-ch:
+					return v
+				case <-time.After(12 * time.Second):
+					return -1
+				}
+			}
+			runs := make([]*pendRun, len(st.Conns))
+			pobs = make([]c15PendObs, len(st.Conns))
+			setup := true
+			for j, pc := range st.Conns {
+				pobs[j] = c15PendObs{Slot: pc.Slot, Status: -1, Notes: [][]int{}}
+				rc, err := c15RawDial(udpConn.LocalAddr())
+				if err != nil {
+					fail("step %d: raw QUIC connection failed: %v", si, err)
+					setup = false
+					break
+				}
+				token := fmt.Sprintf("p%d-%d", si, j)
+				ctx, cancel := context.WithTimeout(context.Background(), 30*time.Second)
+				pr := &pendRun{rc: rc, hold: authn.hold(token), cancel: cancel, done: make(chan int, 1)}
+				runs[j] = pr
+				cred := fmt.Sprintf("hold:%s:%s:%s", token, pc.Decide, c.Ids[pc.ID])
+				go func() { pr.done <- pr.rc.authCtx(ctx, st.Proto, cred) }()
+				select {
+				case <-pr.hold.entered:
+					pobs[j].Entered = true
+				case <-time.After(10 * time.Second):
+					fail("step %d: the auth request of connection %d never reached the authenticator", si, j)
+					setup = false
+				}
+				if !setup {
+					break
+				}
+			}
+			inject := func(j int) {
+				pr := runs[j]
+				switch st.Conns[j].Fault {
+				case "close":
+					_ = pr.rc.conn.CloseWithError(0x101, "") // what client.connect does when its round trip fails
+					pr.closed = true
+					wait(pr.done)
+				case "cancel":
+					pr.cancel()
+					wait(pr.done)
+				}
+			}
+			if !setup {
+				result = "error:setup"
+				for _, pr := range runs {
+					if pr != nil {
+						close(pr.hold.release)
+						pr.cancel()
+						pr.rc.close()
+					}
+				}
+				break
+			}
+			// the faults that happen while the authenticator is still deciding
+			for j, pc := range st.Conns {
+				if pc.When == "pending" && pc.Fault != "none" {
+					inject(j)
+					if pc.Fault == "cancel" && runs[j].rc.ping(st.Proto) == 0 {
+						fail("step %d: connection %d is unusable after its auth request was cancelled", si, j)
+					}
+				}
+			}
+			// let the server see the closes (there is nothing a closed connection could answer)
+			time.Sleep(time.Duration(st.SettleMs) * time.Millisecond)
+			// the backend answers, one connection after the other; each answer is followed until the server has
+			// said about that connection what the code says it will (bounded; the verdict is the pairing below)
+			for _, j := range st.Order {
+				if j < 0 || j >= len(runs) {
+					continue
+				}
+				pc, pr := st.Conns[j], runs[j]
+				mk := tap.mark()
+				close(pr.hold.release)
+				if pc.When == "decided" && pc.Fault != "none" {
+					inject(j)
+				}
+				if pc.Fault == "none" {
+					pobs[j].Status = wait(pr.done)
+				}
+				wantN := 0
+				if pc.Decide == "ok" {
+					wantN = 1
+					if pc.Fault == "close" {
+						wantN = 2
+					}
+				}
+				bound := 10 * time.Second
+				if !ok {
+					bound = 250 * time.Millisecond
+				}
+				if wantN == 0 {
+					bound = 40 * time.Millisecond
+				}
+				deadline := time.Now().Add(bound)
+				var notes [][]int
+				for {
+					notes = notesSince(mk)
+					if (wantN > 0 && len(notes) >= wantN) || (len(notes) > 0 && notes[0][1] == 0) || time.Now().After(deadline) {
+						break
+					}
+					time.Sleep(2 * time.Millisecond)
+				}
+				pobs[j].Notes = notes
+				// per connection: nothing, or online, or online then offline - of its own user
+				shape := len(notes) <= 2
+				for k, nt := range notes {
+					if nt[0] != pc.ID || nt[1] != 1-k {
+						shape = false
+					}
+				}
+				what := fmt.Sprintf("connection %d of id %d (authenticator answers %s; %s %s)", j, pc.ID, pc.Decide, pc.Fault, pc.When)
+				switch {
+				case !shape:
+					fail("step %d: unpaired online notifications for %s: the server reported %v ([id, 1 online | 0 offline]) between the authenticator's answer "+
+						"and the end of that connection's handler; expected nothing, or online, or online then offline", si, what, notes)
+				case pc.Decide != "ok" && len(notes) > 0:
+					fail("step %d: online notifications %v for %s, whose credentials were rejected", si, notes, what)
+				}
+			}
+			// what is left: the connections that are still there and authenticated are connections of their users
+			for j, pc := range st.Conns {
+				pr := runs[j]
+				pr.cancel()
+				isLive := false
+				switch {
+				case pr.closed:
+				case pc.Decide == "ok" && pc.Fault == "none":
+					isLive = pobs[j].Status == st.Proto.Status
+					if !isLive {
+						fail("step %d: auth request of connection %d (accepted credentials, slow authenticator) answered %d", si, j, pobs[j].Status)
+					}
+				case pc.Decide == "ok":
+					// the request was cancelled; a second one with rejected credentials tells whether the server
+					// took the first: "already authenticated"
+					pobs[j].Status = pr.rc.auth(st.Proto, "denied")
+					isLive = pobs[j].Status == st.Proto.Status
+				case pc.Fault == "none" && pobs[j].Status == st.Proto.Status:
+					fail("step %d: rejected credentials were accepted on connection %d", si, j)
+				}
+				pobs[j].Live = isLive
+				if isLive {
+					raws[pc.Slot] = pr.rc
+					slotID[pc.Slot] = pc.ID
+					live[pc.ID]++
+				} else {
+					pr.rc.close()
+				}
+			}
+			for _, j := range st.Order {
+				if j < 0 || j >= len(runs) {
+					continue
+				}
+				pc, nt := st.Conns[j], pobs[j].Notes
+				switch {
+				case pobs[j].Live:
+					wantUps = append(wantUps, pc.ID)
+				case runs[j].closed && pc.Decide == "ok" && len(nt) == 2:
+					wantUps = append(wantUps, pc.ID)
+					wantDowns = append(wantDowns, pc.ID)
+				}
+			}
 		case "connect", "reject":
 			auth := "ok:" + c.Ids[st.ID]
 			if st.A == "reject" {
@@ -846,7 +1224,8 @@ func c15E2E(c c15Case, steps []c15Step, res map[string]any) {
 		if !good {
 			fail("step %d (%s): GET /online shows %v, expected census %v (bounded wait expired)", si, st.A, on, live)
 		}
-		ob := c15E2EObs{Step: si, Result: result, Alive: alive, Online: on, Reports: [][]uint64{}, Ups: []int{}, Downs: []int{}, Auths: auths}
+		pairing(si, st.A, good)
+		ob := c15E2EObs{Step: si, Result: result, Alive: alive, Online: on, Reports: [][]uint64{}, Ups: []int{}, Downs: []int{}, Auths: auths, Pend: pobs}
 		for _, e := range tap.since(mark) {
 			switch {
 			case e.Log:
